@@ -16,14 +16,30 @@ Definition exempt_fields : list string := [
   "protocol/surveyor.survey.err";
   (* assigned once in survey.start, under the socket mutex, before the survey is published in c.surv / s.surveys;
      afterwards only the channel itself is used *)
-  "protocol/surveyor.survey.recvQ"
+  "protocol/surveyor.survey.recvQ";
+  (* ---- transports ---- *)
+  (* conn.SetOption is not reachable from the application (mangos.Pipe has no SetOption): the dialer / accept loop that
+     created the conn calls it before handing the conn to the handshaker (channel send / go statement = happens-before);
+     afterwards maxrx and the map are only read *)
+  "transport.conn.maxrx";
+  "transport.conn.options";
+  (* the accepting side of an inproc pair is parked in listener.Accept on server.readyq; dialer.Dial fills in the
+     queues and the peer pointers and then closes readyq (channel close = happens-before); never written again *)
+  "transport/inproc.inproc.rq";
+  "transport/inproc.inproc.wq";
+  "transport/inproc.inproc.peer";
+  (* written once by Listen under l.lock before the accept goroutine is started (go statement = happens-before); a second
+     Listen fails in net.ListenUnix (address in use) before reaching the store *)
+  "transport/ipc.listener.listener"
 ].
 
 (* in scope of the static discipline: the socket core and the protocol implementations (the mechanism the property
    names: "every shared field is accessed under its socket's mutex").  Message fields change owner instead of being
-   locked (C17).  Transports are exercised by the dynamic race matrix only. *)
+   locked (C17).  The transports (transport/conn.go and transport/<name>) are in scope as well since the endpoint races
+   found there (known_findings.json, C11 fa324e6 .. a15de47, a1ed452). *)
 Definition in_scope (name : string) : bool :=
-  (String.prefix "protocol/" name || String.prefix "internal/core." name) && negb (has_sub "Message." name).
+  (String.prefix "protocol/" name || String.prefix "internal/core." name || String.prefix "transport" name)
+  && negb (has_sub "Message." name).
 
 Definition exempt_of (field_names : list string) : list N :=
   map (fun x => N.of_nat (fst x))
